@@ -24,6 +24,30 @@ def build(rng):
     return sp, cores, mx
 
 
+def build_streaming(rng):
+    """streaming producers, their FIFO consumers and unrelated tasks compete for few slots: a FIFO reader that arrives
+    while the slots are taken has to wait like everybody else"""
+    mx = rng.randint(2, 4)
+    sp = t3.Spec(maxtasks=mx, bufsize=rng.choice([1, 128]))
+    L = rng.randint(1, 2)
+    paths = ["q%02d.txt" % j for j in range(L)]
+    for p in paths:
+        sp.files[p] = p + "\n"
+    s = sp.src("src", paths)
+    cores = {"prod": 1, "cons": 1}
+    pr = sp.proc(t3.Proc("prod", kind="cattok", ins=[("a", [(s, "out")])], outs=[("o", "{i:a}.st")], stream_outs=["o"], sleep="sleep 0.0%d" % rng.randint(3, 8)))
+    sp.proc(t3.Proc("cons", kind="cat", ins=[("a", [(pr, "o")])], outs=[("o", "{i:a}.cons")], sleep="sleep 0.0%d" % rng.randint(1, 5)))
+    hp = ["h%02d.txt" % j for j in range(rng.randint(3, 6))]
+    for p in hp:
+        sp.files[p] = p + "\n"
+    hs = sp.src("hsrc", hp)
+    for b in range(rng.randint(1, 2)):
+        name = "hog%d" % b
+        cores[name] = 1
+        sp.proc(t3.Proc(name, kind="cattok", ins=[("a", [(hs, "out")])], outs=[("o", "{i:a}.%s" % name)], sleep="sleep 0.0%d" % rng.randint(3, 9)))
+    return sp, cores, mx
+
+
 def overlap(trace, cores):
     """max over time of the summed cores of commands between their S and E trace lines (a lower bound of true usage)"""
     ev = []
@@ -54,8 +78,8 @@ def token_replay(hooks, mx):
 def case(args):
     seed, i = args
     rng = random.Random(seed * 86028121 + i)
-    sp, cores, mx = build(rng)
-    if i % 3 == 1:
+    sp, cores, mx = build(rng) if i % 4 != 3 else build_streaming(rng)
+    if i % 3 == 1 and i % 4 != 3:
         # a partially completed workflow that is resumed: some tasks are skipped while others hold slots
         base = t3.run_model(sp.text())
         for t in base["tasks"]:
